@@ -4,8 +4,95 @@
    these lemmas directly. *)
 From MV Require Import C20.Model gen.Params_C20.
 
+(* ---------- shape-independent treatment of the smearing chain ----------
+   A chain  x |= x >> k1; x |= x >> k2; ...  (in any order, with any shifts, any number of
+   statements) sets bit i iff some bit i+s of the argument is set, s ranging over the subset sums
+   of the shifts.  Two chains with the same SET of subset sums compute the same function, for every
+   x; the sets are compared by computation. *)
+Section Smear.
+Local Open Scope N_scope.
+
+Definition smear_list (ks : list N) (x : N) : N := fold_left (fun y k => N.lor y (N.shiftr y k)) ks x.
+Definition offs_step (S : list N) (k : N) : list N := S ++ map (N.add k) S.
+Definition offsets (ks : list N) : list N := fold_left offs_step ks [0].
+Definition hits (x i : N) (S : list N) : bool := existsb (fun s => N.testbit x (i + s)) S.
+Definition subset (A B : list N) : bool := forallb (fun a => existsb (N.eqb a) B) A.
+
+Lemma hits_step x i k S : hits x i (offs_step S k) = hits x i S || hits x (i + k) S.
+Proof.
+  unfold hits, offs_step. rewrite existsb_app. f_equal.
+  induction S as [|s S IH]; cbn [map existsb]; [reflexivity|]. rewrite IH. f_equal. f_equal. lia.
+Qed.
+
+Lemma smear_bits_gen x ks : forall y S, (forall i, N.testbit y i = hits x i S) ->
+  forall i, N.testbit (fold_left (fun y k => N.lor y (N.shiftr y k)) ks y) i = hits x i (fold_left offs_step ks S).
+Proof.
+  induction ks as [|k ks IH]; intros y S H i; cbn [fold_left]; [apply H|].
+  apply IH. intro j. rewrite N.lor_spec, N.shiftr_spec', !H, hits_step. reflexivity.
+Qed.
+
+Lemma smear_bits ks x i : N.testbit (smear_list ks x) i = hits x i (offsets ks).
+Proof.
+  apply smear_bits_gen. intro j. unfold hits. cbn [existsb]. rewrite N.add_0_r, orb_false_r. reflexivity.
+Qed.
+
+Lemma hits_subset x i A B : subset A B = true -> hits x i A = true -> hits x i B = true.
+Proof.
+  unfold subset, hits. rewrite forallb_forall. intros H HA.
+  apply existsb_exists in HA. destruct HA as (a & Ha & Hb).
+  specialize (H a Ha). apply existsb_exists in H. destruct H as (b & Hb1 & Hb2). apply N.eqb_eq in Hb2. subst b.
+  apply existsb_exists. exists a. split; assumption.
+Qed.
+
+Lemma smear_list_ext ks ks' x :
+  subset (offsets ks) (offsets ks') && subset (offsets ks') (offsets ks) = true ->
+  smear_list ks x = smear_list ks' x.
+Proof.
+  intro H. apply andb_true_iff in H. destruct H as [H1 H2].
+  apply N.bits_inj. intro i. rewrite !smear_bits.
+  destruct (hits x i (offsets ks)) eqn:A; destruct (hits x i (offsets ks')) eqn:B; try reflexivity.
+  - rewrite (hits_subset x i _ _ H1 A) in B. discriminate.
+  - rewrite (hits_subset x i _ _ H2 B) in A. discriminate.
+Qed.
+End Smear.
+
+Ltac reify_smear t x :=
+  lazymatch t with
+  | x => constr:(@nil N)
+  | N.lor ?a (N.shiftr ?a ?k) => let r := reify_smear a x in constr:((r ++ [k])%list)
+  end.
+
+(* both sides are  if <test> then x else (<smearing chain> + 1) mod 2^64  with the same test *)
+Ltac npo2_semantic x :=
+  cbv zeta;
+  lazymatch goal with
+  | |- (if ?t then _ else (?c + 1) mod _)%N = (if _ then _ else (?c' + 1) mod _)%N =>
+      let ks := reify_smear c x in
+      let ks' := reify_smear c' x in
+      replace c with c'; [reflexivity|];
+      change c' with (smear_list ks' x); change c with (smear_list ks x);
+      apply smear_list_ext; vm_compute; reflexivity
+  end.
+
 Lemma gen_npo2_eq_l : forall x : N, gen_npo2 x = model_npo2 x.
-Proof. intro x. reflexivity. Qed.
+Proof.
+  intro x. first [reflexivity | unfold gen_npo2, model_npo2; npo2_semantic x].
+Qed.
+
+(* the semantic route exercised on every build: statements permuted, one shift split in two *)
+Example npo2_shape_independent : forall x : N,
+  (if (N.land x ((x + 18446744073709551616 - 1) mod 18446744073709551616) =? 0)
+   then x
+   else
+     let x := N.lor x (N.shiftr x 32) in
+     let x := N.lor x (N.shiftr x 1) in
+     let x := N.lor x (N.shiftr x 8) in
+     let x := N.lor x (N.shiftr x 1) in
+     let x := N.lor x (N.shiftr x 16) in
+     let x := N.lor x (N.shiftr x 4) in
+     let x := N.lor x (N.shiftr x 1) in
+     (x + 1) mod 18446744073709551616)%N = model_npo2 x.
+Proof. intro x. unfold model_npo2. npo2_semantic x. Qed.
 
 Lemma gen_hex_to_byte_eq_l : forall c : Z, gen_hex_to_byte c = hex_to_byte c.
 Proof. intro c. reflexivity. Qed.
